@@ -40,6 +40,7 @@ static sk_rng fill_rng;
 static sk_release_cb release_cb;
 static void (*yield_fn)(void);
 static uint64_t trace;
+int (*sk_heap_filter)(size_t n, int op); /* event-keyed fault injection: nonzero = fail this allocation */
 
 /* table for the non-arena (tsan) mode */
 #define XT_CAP 8192
@@ -246,6 +247,11 @@ static void* armed_alloc(size_t n, int op)
 	sk_dg_add(&trace, t, sizeof(t));
 	if (should_fail())
 		return 0;
+	if (sk_heap_filter && sk_heap_filter(n, op))
+	{
+		++nfailed;
+		return 0;
+	}
 	if (use_arena)
 		return arena_alloc(n);
 	p = __real_malloc(n ? n : 1);
@@ -342,6 +348,11 @@ void* __wrap_realloc(void* p, size_t n)
 		}
 		if (should_fail())
 			return 0;
+		if (sk_heap_filter && sk_heap_filter(n, 3))
+		{
+			++nfailed;
+			return 0;
+		}
 		q = arena_alloc(n);
 		if (!q)
 			return 0;
@@ -359,6 +370,11 @@ void* __wrap_realloc(void* p, size_t n)
 			yield_fn();
 		if (should_fail())
 			return 0;
+		if (sk_heap_filter && sk_heap_filter(n, 3))
+		{
+			++nfailed;
+			return 0;
+		}
 		/* always move */
 		q = __real_malloc(n ? n : 1);
 		if (!q)
